@@ -226,6 +226,17 @@ async def scenario(loop, plan, r):
             loop.call_at(t0 + t_add, _add)
             if t_rm is not None:
                 loop.call_at(t0 + t_rm, _rm)
+        # somebody else waits for the same stack status at the same time (another bring-up, a form next to a watcher)
+        extra = []
+        if op.get("waiters") and kind in ("form", "leave", "ensure"):
+            want_status = getattr(t.sl_Status, MATCH[kind])
+
+            async def watcher():
+                with ezsp.wait_for_stack_status(want_status) as fut:
+                    return await asyncio.wait_for(fut, 40)
+
+            extra = [asyncio.ensure_future(watcher()) for _ in range(op["waiters"])]
+            await asyncio.sleep(0)
         task = asyncio.ensure_future(coro)
         second = None
         if op.get("overlap") is not None and kind in ("escan", "ascan"):
@@ -297,6 +308,21 @@ async def scenario(loop, plan, r):
             flags.add("outcome:" + got[0])
         # let every scheduled event land, then look for leaked listeners
         await asyncio.sleep(last_ev)
+        if extra:
+            flags.add("several-waiters-for-one-status")
+            await asyncio.wait(extra, timeout=60)
+            match_ev = [e_ for e_ in op["events"] if e_[1] == "status" and e_[2] == MATCH[kind] and 0 < e_[0] < 39.9]
+            sent = sim.issue_time is not None  # events are only emitted once the NCP has seen the command
+            for w_ in extra:
+                got_it = w_.done() and not w_.cancelled() and w_.exception() is None
+                if not w_.done():
+                    w_.cancel()
+                if sent and match_ev and not got_it:
+                    how = repr(w_.exception()) if (w_.done() and not w_.cancelled()) else "pending"
+                    r.bad("C17:concurrent-waiter-missed-the-event", f"{where}: {MATCH[kind]} arrived at {match_ev[0][0]}s while {len(extra)} more "
+                          f"waiter(s) were registered; one of them ended with {how}; plan {plan}")
+                    return
+            await asyncio.sleep(0.01)
         if second is not None:
             flags.add("overlapping-scan-request")
             if not second.done():
@@ -404,6 +430,8 @@ def op_plan(draw):
             life = draw(st.sampled_from([None, 0.0011, 0.0212, 0.3, 4.0, 11.0]))
             fg.append([a, None if life is None else round(a + life, 5)])
         op["foreign"] = fg
+    if kind in ("form", "leave", "ensure") and draw(st.integers(0, 3)) == 0:
+        op["waiters"] = draw(st.integers(1, 2))
     if kind == "ensure":
         op["joined"] = draw(st.integers(0, 5)) == 0
         if not op["joined"]:
